@@ -9,6 +9,7 @@ from hypothesis import strategies as st
 GRID = [0.25, 0.5, 0.75, 1.0, 1.5, 2.0, 3.0]
 GRID_SHORT = [0.25, 0.5, 0.5, 1.0, 1.0, 1.5]
 DEC_GRID = [0.1, 0.2, 0.3, 0.5, 0.7, 1.1, 1.3]
+DEC_SHORT = [0.1, 0.2, 0.3, 0.3, 0.5, 0.7]
 
 ALL_FEATURES = [
     "inf", "zero_servers", "schedule", "sched_preempt", "sched_reroute", "slotted", "slot_capacitated", "slot_preempt",
@@ -90,7 +91,7 @@ def dist_grid(draw, prof, role):
     positive = role in ("arrival", "cct") or "zero_service" not in prof.allowed
     g = None
     if role == "arrival" and prof.load == "heavy":
-        g = GRID_SHORT
+        g = DEC_SHORT if prof.numeric == "decgrid" else GRID_SHORT
     kind = draw(st.sampled_from(["det", "seq", "seq", "pmf", "emp"] + (["tdep", "sdep"] if ("custom_dists" in prof.allowed and role == "service") else [])
                                 + (["tdep"] if ("custom_dists" in prof.allowed and role == "arrival") else [])))
     n = draw(st.integers(2, prof.seq_len))
@@ -168,7 +169,9 @@ def batch_dist(draw, prof):
 # ------------------------------------------------------------------------------------------------
 def _boundaries(draw, prof, k):
     """k strictly increasing positive boundaries on the grid."""
-    step = DEC_GRID if prof.numeric == "decgrid" else [0.5, 1.0, 1.5, 2.0, 2.5]
+    # decimal-grid profile: boundaries on multiples of 0.5 (decimal *and* dyadic, so Ciw's float timetable arithmetic is exact;
+    # timetables with other decimal boundaries are the pinned finding F28)
+    step = [0.5, 1.0, 1.5, 2.0] if prof.numeric == "decgrid" else [0.5, 1.0, 1.5, 2.0, 2.5]
     out, t = [], 0.0
     for _ in range(k):
         t = t + draw(st.sampled_from(step))
@@ -195,7 +198,7 @@ def servers(draw, prof, kinds):
             opts = ["resume", "restart", "resample"] + (["reroute"] if prof.w("sched_reroute") > 0 else [])
             pre = draw(st.sampled_from(opts))
         return {"kind": "schedule", "numbers": numbers, "ends": _boundaries(draw, prof, k), "preemption": pre,
-                "offset": draw(st.sampled_from([0.0, 0.0, 0.5, 1.25]))}
+                "offset": draw(st.sampled_from([0.0, 0.0, 0.5, 1.5] if prof.numeric == "decgrid" else [0.0, 0.0, 0.5, 1.25]))}
     if kind == "slotted":
         k = draw(st.integers(1, 4))
         cap = _flag(draw, prof.w("slot_capacitated", 0.5))
